@@ -2318,6 +2318,9 @@ func spellingFields(p *Prog) map[string]bool {
 func runC08SpellCmp(c *Ctx) {
 	p := c.P
 	fields := spellingFields(p)
+	for f := range loweredKeyFields(p) {
+		fields[f] = true // string fields whose lower-casing is the key of a name-keyed map (FuncCallNode.Callee, ...)
+	}
 	if len(fields) < 8 {
 		c.anchorMissing(fmt.Sprintf("spelling fields of name-keyed map entries (found %d)", len(fields)))
 		return
